@@ -1,4 +1,4 @@
-From Urwid Require Import Edit.
+From Urwid Require Import Edit EditBytes.
 From Coq Require Extraction ExtrOcamlBasic.
 Extraction Language OCaml.
-Extraction "model.ml" run_case.
+Extraction "model.ml" EditBytes.run_case.
